@@ -91,14 +91,13 @@ func (m *c20Model) get(n string) (string, bool) {
 	case "?":
 		return "0", true
 	case "-":
-		s := optLetters(m.opts)
-		return s, s != ""
+		return optLetters(m.opts), true // always set, possibly null
 	case "$":
 		return strconv.Itoa(os.Getpid()), true
 	case "!":
 		return "", false
 	case "0":
-		return m.args[0], m.args[0] != ""
+		return m.args[0], true
 	case "@", "*":
 		v, ok := m.vars[n] // not retrievable through Get as parameters; never settable
 		return v, ok
